@@ -262,6 +262,7 @@ func C12(c *core.Ctx) {
 		}
 	}
 	c12OptionHistories(c)
+	c12ReceiveLoop(c)
 	// (b') the random source fails for a while (the process is out of file descriptors, the entropy device errors):
 	// a Chunk() call during the outage fails one way or another (uuid.New panics), but no message may end up with
 	// an id that was not drawn from the source: when the source is back every message gets its own fresh id, and
@@ -483,5 +484,74 @@ func c12OptionHistories(c *core.Ctx) {
 		c.Hist(fmt.Sprintf("option history of %d operations over %d messages", len(ops), len(msgs)))
 		c.Distinct("opt " + strings.Join(ops, ";"))
 		c.Corr("c12-options", "optcells_run", []string{strings.Join(ops, ";")}, strings.Join(view, ","))
+	}
+}
+
+// c12ReceiveLoop: messages that arrive through the decoders (a relay): one receiver is decoded into again and again,
+// each decoded message is kept BY VALUE (queue = append(queue, *m)); afterwards every kept message still has the id
+// it arrived with (or, if it arrived without one, gets a fresh one of its own) and encodes with it.
+func c12ReceiveLoop(c *core.Ctx) {
+	r := c.Rng
+	for _, mode := range []string{"message", "message_ext", "forward", "packed"} {
+		for _, path := range paths {
+			recv := newReceiver(mode)
+			var kept []protocol.ChunkEncoder
+			var ids []string
+			for k := 0; k < 6; k++ {
+				id := ""
+				var opts *protocol.MessageOptions
+				switch k % 3 {
+				case 0:
+					id = fmt.Sprintf("arrived-%s-%d-%d", mode, k, r.Intn(1000))
+					opts = &protocol.MessageOptions{Chunk: id}
+				case 1:
+					opts = &protocol.MessageOptions{Compressed: "gzip"} // options, but no id yet
+				}
+				src := chunkable(mode, opts)
+				b, _ := src.(codecMsg).MarshalMsg(nil)
+				if cl, _ := decodeObs(path, recv, b); cl != "ok" {
+					c.Violation("judge-go", "c12-receive-loop", "a well-formed message was rejected", map[string]interface{}{"mode": mode, "path": path})
+					continue
+				}
+				// keep the decoded message by value
+				var cp protocol.ChunkEncoder
+				switch t := recv.(type) {
+				case *protocol.Message:
+					v := *t
+					cp = &v
+				case *protocol.MessageExt:
+					v := *t
+					cp = &v
+				case *protocol.ForwardMessage:
+					v := *t
+					cp = &v
+				case *protocol.PackedForwardMessage:
+					v := *t
+					cp = &v
+				}
+				kept = append(kept, cp)
+				ids = append(ids, id)
+			}
+			seen := map[string]int{}
+			for k, m := range kept {
+				got, err := m.Chunk()
+				again, _ := m.Chunk()
+				c.Eval()
+				replay := map[string]interface{}{"mode": mode, "path": path, "position": k, "arrived_with": ids[k], "chunk": got}
+				if err != nil || got == "" || got != again || (ids[k] != "" && got != ids[k]) {
+					c.Violation("judge-go", "c12-receive-loop", fmt.Sprintf("message %d kept by value from a receive loop (%s, %s) arrived with chunk %q; Chunk() now returns %q, then %q (err %v)", k, mode, path, ids[k], got, again, err), replay)
+				}
+				if prev, dup := seen[got]; dup {
+					c.Violation("judge-go", "c12-duplicate", fmt.Sprintf("messages %d and %d kept from a receive loop have the same chunk id %q", prev, k, got), replay)
+				}
+				seen[got] = k
+				if enc, e := m.(codecMsg).MarshalMsg(nil); e == nil {
+					if onWire, _ := protocol.GetChunk(enc); onWire != got {
+						c.Violation("judge-go", "c12-wire", fmt.Sprintf("message %d kept from a receive loop encodes with chunk %q, Chunk() said %q", k, onWire, got), replay)
+					}
+				}
+			}
+			c.Hist("receive loop, messages kept by value")
+		}
 	}
 }
